@@ -338,3 +338,96 @@ Proof.
     destruct HQ2 as (_ & _ & _ & _ & Hout). rewrite Hout, Ho2. cbn [rem out]. rewrite app_nil_r, app_nil_r, rev_append_rev, app_nil_r, rev_involutive, Hr1. reflexivity.
 Qed.
 End StoredExtract.
+
+(* ---------- extract() of a member of an MSZIP folder = the ideal run of the MSZIP port on the concatenated payloads ---------- *)
+Section ChainedIdeal.
+Variable par : params.
+Variables (bres comp nblocks : N).
+Variable file : list N.
+Hypothesis not_lzx : ctype comp <> cffoldCOMPTYPE_LZX.
+
+Theorem cab_buffered_ideal_rel {A} (p : sprog A) bufsize rule w o0 off0 hint post i b h hs : 0 < bufsize ->
+  Q bres comp nblocks file w o0 off0 hint post h hs -> R rule i b hs ->
+  let '((r2, b'), h') := Cab.cexec file par bres comp nblocks h (buffered bufsize rule p b) in
+  let '(r1, i') := ideal rule hint p i in
+  r1 = r2 /\ exists hs', Q bres comp nblocks file w o0 off0 hint post h' hs' /\ iout i' = out hs' /\ (forall a, r1 = SVal a -> R rule i' b' hs').
+Proof.
+  intros Hb HQ HR.
+  pose proof (host_sim par bres comp nblocks file not_lzx w o0 off0 hint post (buffered bufsize rule p b) h hs HQ) as S1.
+  pose proof (buffered_refines_ideal_rel bufsize rule hint Hb p i b hs HR) as S2.
+  destruct (Cab.cexec file par bres comp nblocks h (buffered bufsize rule p b)) as [[r2 b'] h'].
+  destruct (Sim.exec hint hs (buffered bufsize rule p b)) as [[r2' b''] hs'].
+  destruct (ideal rule hint p i) as [r1 i']. destruct S1 as [E HQ']. inversion E; subst. destruct S2 as (E1 & E2 & E3).
+  split; [exact E1|]. exists hs'. split; [exact HQ'|]. split; [exact E2|exact E3].
+Qed.
+End ChainedIdeal.
+
+Section MszipExtract.
+Variable file : list N.
+Variable par : params.
+Variable cab : cabinet.
+Hypothesis bufpos : 0 < p_bufsize par.
+
+Lemma bufsize_even_pos : 0 < bufsize_even par.
+Proof. unfold bufsize_even. assert (1 <= (p_bufsize par + 1) / 2) by (apply N.div_le_lower_bound; lia). lia. Qed.
+
+Theorem mszip_extract fo f pre bs post z1 i1 z2 i2 :
+  nth_error (c_folders cab) (N.to_nat (fi_folder f)) = Some fo -> ctype (fo_comp fo) = cffoldCOMPTYPE_MSZIP -> prechecks par fo f = true ->
+  file = pre ++ encs bs ++ post -> fo_offset fo = Z.of_N (len pre) -> N.of_nat (length bs) = fo_nblocks fo -> Forall (wf_blk (c_bres cab)) bs ->
+  fi_len f <> 0 ->
+  (* the ideal run: skip to the member's offset, then decode the member *)
+  (if fi_off f =? 0 then (SVal (MSPACK_ERR_OK, false, Mszip.zinit), {| irest := pays (fo_comp fo) bs ++ pad EofPad2; iout := [] |})
+   else ideal EofPad2 0 (Mszip.zcall (fi_off f) Mszip.zinit) {| irest := pays (fo_comp fo) bs ++ pad EofPad2; iout := [] |}) = (SVal (MSPACK_ERR_OK, false, z1), i1) ->
+  ideal EofPad2 0 (Mszip.zcall (fi_len f) z1) {| irest := irest i1; iout := [] |} = (SVal (MSPACK_ERR_OK, false, z2), i2) ->
+  exists st', extract file par cab cs_init f = (MSPACK_ERR_OK, rev (iout i2), st').
+Proof.
+  intros Hfo Hct Hpre Hfile Hoff Hnb Hwf Hlen Hskip Hext. unfold prechecks in Hpre.
+  apply andb_true_iff in Hpre as [Hpre H4]. apply andb_true_iff in Hpre as [Hpre H3]. apply andb_true_iff in Hpre as [H1 H2].
+  apply N.leb_le in H1, H2. apply negb_true_iff in H3.
+  unfold extract. replace (CAB_LENGTHMAX <? fi_off f) with false by (symmetry; apply N.ltb_ge; exact H1).
+  replace (CAB_LENGTHMAX - fi_off f <? fi_len f) with false by (symmetry; apply N.ltb_ge; exact H2). cbn [andb]. rewrite Hfo, H3.
+  assert (Hmax : negb (p_salvage par) && (((fo_nblocks fo * CAB_BLOCKMAX) mod M32 <? fi_off f) || ((fo_nblocks fo * CAB_BLOCKMAX) mod M32 - fi_off f <? fi_len f)) = false).
+  { destruct (p_salvage par); [reflexivity|]. cbn [orb negb andb] in *. apply andb_true_iff in H4 as [A B]. apply N.leb_le in A, B.
+    replace (_ <? fi_off f) with false by (symmetry; apply N.ltb_ge; exact A). replace (_ <? fi_len f) with false by (symmetry; apply N.ltb_ge; exact B). reflexivity. }
+  rewrite Hmax. cbn [cs_init cs_folder cs_dec cs_host cs_bst negb orb].
+  assert (Hinit : init_decomp (fo_comp fo) = inr (DZip Mszip.zinit)).
+  { unfold init_decomp. unfold ctype in Hct. rewrite Hct. reflexivity. }
+  rewrite Hinit. cbn [N.eqb negb cs_dec cs_host cs_bst cs_folder].
+  replace (fi_len f =? 0) with false by (symmetry; apply N.eqb_neq; exact Hlen).
+  set (comp := fo_comp fo) in *. set (S := pays comp bs) in *.
+  assert (Hnl : ctype comp <> cffoldCOMPTYPE_LZX) by (rewrite Hct; discriminate).
+  set (h0 := clear_out (with_writing (mkH (fo_offset fo) true [] 0 0 0 0 false [] 0) false)).
+  set (b0 := {| bbuf := []; bend := false |}).
+  set (i0 := {| irest := S ++ pad EofPad2; iout := [] |}) in *.
+  assert (HQ0 : Q (c_bres cab) comp (fo_nblocks fo) file false [] 0 0 post h0 {| rem := S; out := [] |}).
+  { unfold Q, h0. cbn. repeat split. exists pre, bs. split; [|reflexivity]. unfold at_blocks. cbn. repeat split; try assumption.
+    - intros ->. cbn in Hnb. lia.
+    - intros _. lia. }
+  assert (HR0 : R EofPad2 i0 b0 {| rem := S; out := [] |}) by (unfold R, i0, b0; cbn; repeat split; auto; discriminate).
+  (* skip *)
+  assert (Hs : exists h1 hs1 b1, (if fi_off f - h_off h0 =? 0 then (0, DZip Mszip.zinit, b0, h0)
+                                  else dec_call file par cab fo (DZip Mszip.zinit) b0 h0 (fi_off f - h_off h0)) = (0, DZip z1, b1, h1) /\
+            Q (c_bres cab) comp (fo_nblocks fo) file false [] 0 0 post h1 hs1 /\ R EofPad2 i1 b1 hs1).
+  { change (h_off h0) with 0. rewrite N.sub_0_r. destruct (N.eqb_spec (fi_off f) 0) as [E0|NE].
+    - inversion Hskip; subst. exists h0, {| rem := S; out := [] |}, b0. split; [reflexivity|split; [exact HQ0|exact HR0]].
+    - unfold dec_call.
+      pose proof (cab_buffered_ideal_rel par (c_bres cab) comp (fo_nblocks fo) file Hnl (Mszip.zcall (fi_off f) Mszip.zinit) (bufsize_even par) EofPad2
+                    false [] 0 0 post i0 b0 h0 _ bufsize_even_pos HQ0 HR0) as P.
+      fold comp. destruct (Cab.cexec file par (c_bres cab) comp (fo_nblocks fo) h0 (buffered (bufsize_even par) EofPad2 (Mszip.zcall (fi_off f) Mszip.zinit) b0)) as [[r2 b1] h1].
+      rewrite Hskip in P. destruct P as (<- & hs1 & HQ1 & _ & HR1). cbn [andb]. exists h1, hs1, b1. split; [reflexivity|split; [exact HQ1|exact (HR1 _ eq_refl)]]. }
+  destruct Hs as (h1 & hs1 & b1 & E1 & HQ1 & HR1). rewrite E1. cbn [N.eqb negb].
+  (* extract *)
+  assert (HQ1' : Q (c_bres cab) comp (fo_nblocks fo) file true [] (h_off h1) 0 post (with_writing h1 true) {| rem := rem hs1; out := [] |}).
+  { destruct HQ1 as ((pre1 & bs1 & Hat & Hrem) & Hw & Hh & Ho & Hout). unfold Q, with_writing.
+    cbn [h_off h_writing h_hint h_out h_ibuf h_pos h_block h_open rem out]. split; [|split; [reflexivity|split; [exact Hh|split; [cbn; lia|rewrite Hout; reflexivity]]]].
+    exists pre1, bs1. split; [|exact Hrem]. destruct Hat as (A & B & C & D & E). unfold at_blocks. cbn [h_pos h_block]. repeat split; assumption. }
+  assert (HR1' : R EofPad2 {| irest := irest i1; iout := [] |} b1 {| rem := rem hs1; out := [] |}).
+  { destruct HR1 as (A & B & C & D). unfold R. cbn. repeat split; assumption. }
+  unfold dec_call.
+  pose proof (cab_buffered_ideal_rel par (c_bres cab) comp (fo_nblocks fo) file Hnl (Mszip.zcall (fi_len f) z1) (bufsize_even par) EofPad2
+                true [] (h_off h1) 0 post _ b1 (with_writing h1 true) _ bufsize_even_pos HQ1' HR1') as P.
+  fold comp. destruct (Cab.cexec file par (c_bres cab) comp (fo_nblocks fo) (with_writing h1 true) (buffered (bufsize_even par) EofPad2 (Mszip.zcall (fi_len f) z1) b1)) as [[r2 b2] h2].
+  rewrite Hext in P. destruct P as (<- & hs2 & HQ2 & Ho2 & _). cbn [andb N.eqb negb]. eexists. f_equal. f_equal.
+  destruct HQ2 as (_ & _ & _ & _ & Hout). rewrite Hout, <- Ho2, app_nil_r, rev_append_rev, app_nil_r. reflexivity.
+Qed.
+End MszipExtract.
